@@ -70,5 +70,5 @@ def run(tier, seed):
         from . import c11
         # (c) bundles: compose / inverse / act / transform / identity of the covering bundle layouts (BundleLayout.tla)
         # against the block-diagonal matrix model
-        return lattice(rep, tier, seed) + c11.collect(rep, tier, seed, prop="C01", ops={"compose", "inverse", "act", "transform", "identity"})
+        return lattice(rep, tier, seed) + c11.collect(rep, "quick", seed, prop="C01", ops={"compose", "inverse", "act", "transform", "identity"})
     return numeric.run("C01", tier, seed, lambda e, i: not i.startswith("J"), rule, extra_results=extra, exhaustive=True)
